@@ -231,3 +231,17 @@ prop("C01", level="exploration",
            "of each operator."),
      min_nontrivial=dict(quick=120, thorough=2000),
      assumptions=_fs_assume + ["CIDs bind content: a block whose bytes hash to a link of the true DAG is genuine content"])
+
+prop("C09", level="exploration",
+     stages=[dict(pkg="fullstack", test="TestC09", sub="thirdparty", race=True, vary_gomaxprocs=True,
+                  cases=dict(quick=500, thorough=6000), timeout=3600)],
+     technique="runtime monitoring: hook-invocation monitor and outgoing wire-log monitor on the requestor plus differential outcome check (reference model 1) while a scripted third peer injects responses carrying the victim request id at chosen delivery positions; Go race detector",
+     level_text=("An honest exchange (real requestor, real responder holding the whole DAG) runs while a raw third peer injects responses with the victim's "
+                 "request id - every status code, honest-looking and garbage metadata, true and foreign blocks, extensions that make a realistic "
+                 "response hook fail or request an update - at positions tied to the delivery of the genuine messages. Monitors: no response/block hook "
+                 "invocation with (peer = third party, id = victim); no message from the requestor to the third party; outcome exactly equal to the reference."),
+     level_note="Cases are restricted to responders holding the whole DAG and selectors without duplicate load paths, so that C02's recorded known findings cannot be mistaken for third-party influence.",
+     rule=("One evaluation = one case with 1-9 injected third-party messages. Non-trivial = at least one injected message was delivered while the victim "
+           "request was still live; distinct by case. distinct_sets.injected_kinds = distinct (extension behaviour, status) combinations injected."),
+     min_nontrivial=dict(quick=200, thorough=2500),
+     assumptions=_fs_assume)
